@@ -700,6 +700,9 @@ func (r *runner) runCase(cd caseDesc) {
 			if err != nil {
 				ok = false
 				r.out.Stat("rsync_error")
+				if os.Getenv("C12_TIMING") != "" {
+					fmt.Fprintf(os.Stderr, "rsync error: %v\n", err)
+				}
 			}
 			opTerm = vlib.App("OpSyncStream", whoTerm(op.Who), vlib.Nat(keyvalue.VerifApplyBatchSize))
 			nsync++
@@ -719,6 +722,27 @@ func (r *runner) runCase(cd caseDesc) {
 		t1 := time.Now()
 		oa, ob := stores[0].observe(t, ok), stores[1].observe(t, ok)
 		if timing {
+			ma, mb := map[uint64]int64{}, map[uint64]int64{}
+			for _, e := range oa.Contents {
+				ma[e.Slot] = e.Ts
+			}
+			for _, e := range ob.Contents {
+				mb[e.Slot] = e.Ts
+			}
+			onlyA, onlyB, differ := 0, 0, 0
+			for k, v := range ma {
+				if w, ok := mb[k]; !ok {
+					onlyA++
+				} else if w != v {
+					differ++
+				}
+			}
+			for k := range mb {
+				if _, ok := ma[k]; !ok {
+					onlyB++
+				}
+			}
+			fmt.Fprintf(os.Stderr, "  sizes A=%d B=%d onlyA=%d onlyB=%d differ=%d ok=%v hashok A=%v B=%v idx A=%d B=%d\n", len(ma), len(mb), onlyA, onlyB, differ, ok, oa.HashOk, ob.HashOk, len(oa.Index), len(ob.Index))
 			fmt.Fprintf(os.Stderr, "timing %s n=%d op=%v observe=%v\n", op.Kind, len(op.Batch), t1.Sub(t0), time.Since(t1))
 		}
 		steps = append(steps, "("+opTerm+", "+oa.term()+", "+ob.term()+")")
